@@ -106,12 +106,17 @@ def run_space(desc, tier, seed, res):
         for d in datas:
             v = base | d
             res.evaluations += 1
+            # an event is an event whatever device type a listener believes to be enabled (ENABLE DEVICE TYPE is a 16-bit
+            # matter): decoding under a claimed device type gives the same event
+            dt = (0, 0, 6, 1, 255, 8)[(h + d) % 6]
             try:
-                ev = command.from_frame(frame.ForwardFrame(24, v))
+                ev = command.from_frame(frame.ForwardFrame(24, v), devicetype=dt) if dt else command.from_frame(frame.ForwardFrame(24, v))
             except Exception as e:
                 res.violation("C12/decode-raised", f"decoding event-space frame {v:#08x} raised {type(e).__name__}",
                               {"frame": v, "tb": short_tb(e)})
                 continue
+            if dt:
+                res.hit("decoded_under_device_type")
             sl = E.slice_event(v)
             if sl is None:
                 res.hit("non_events")
@@ -266,6 +271,29 @@ def _builder_trial(seed, trial, res):
         m_obj.clear()
         if m_obj.mapping:
             res.violation("C12/map-clear", "clear() left entries behind", {})
+        # a cleared map is an empty map: lookups, decoding and later additions behave as on a fresh one
+        res.hit("map_reuse_after_clear")
+        for (a, i), t in list(final.items())[:4]:
+            v = E.encode_event("device_instance", None, 5, short_address=a, instance_number=i)
+            if m_obj.get_type(short_address=a, instance_number=i) is not None:
+                res.violation("C12/map-clear/stale-lookup", f"get_type({a},{i}) still answers {m_obj.get_type(short_address=a, instance_number=i)} "
+                              "after clear()", {"entries": entries})
+                break
+            ev = command.from_frame(frame.ForwardFrame(24, v), dev_inst_map=m_obj)
+            if type(ev).__name__ != "AmbiguousInstanceType":
+                res.violation("C12/map-clear/stale-decode", f"frame {v:#08x} decodes as {type(ev).__name__} through a cleared map",
+                              {"entries": entries})
+                break
+            t2 = [x for x in (1, 3, 4) if x != t][trial % 2]
+            m_obj.add_type(short_address=a, instance_number=i, instance_type=t2)
+            fresh = DeviceInstanceTypeMapper()
+            fresh.add_type(short_address=a, instance_number=i, instance_type=t2)
+            e1 = command.from_frame(frame.ForwardFrame(24, v), dev_inst_map=m_obj)
+            e2 = command.from_frame(frame.ForwardFrame(24, v), dev_inst_map=fresh)
+            if type(e1) is not type(e2) or str(e1) != str(e2) or m_obj.get_type(short_address=a, instance_number=i) != t2:
+                res.violation("C12/map-clear/later-entry-ignored", f"after clear() and add_type(({a},{i}) -> {t2}) the frame {v:#08x} decodes "
+                              f"as {e1}; a fresh map with that entry gives {e2}", {"entries": entries})
+                break
 
 
 def run_shard(desc, tier, seed):
